@@ -66,6 +66,9 @@ class MacroParser:
             self.shape = "lookahead"
         elif len(pfields) == 1 and pfields[0]["ty"].startswith("std::iter::Peekable<") and "token_stream::IntoIter" in pfields[0]["ty"]:
             self.shape = "peekable"
+        if self.shape is None and len(pfields) == 1 and pfields[0]["ty"].lstrip("&").replace("'a ", "").replace("'_ ", "") == "[proc_macro2::TokenTree]":
+            # the tokens still to be read, as a shrinking slice (`rest: &[TokenTree]`)
+            self.shape = "rest"
         if self.shape is None:
             self.why = "parser::Parser { tokens, index } or { token iterator, lookahead } (fields %s)" % [f["ty"] for f in pfields]
             return
@@ -89,6 +92,9 @@ class MacroParser:
     def _holder_value(self, toks):
         fs = [None, None]
         store = sim.Tup(list(toks))
+        if self.shape == "rest":
+            self._total = len(toks)
+            return Adt("parser::Parser", 0, [sim.Ref([store], 0, ())])
         if self.shape == "peekable":
             # std's Peekable over the token iterator: a by-value iterator whose `peek` looks without advancing
             return Adt("parser::Parser", 0, [Adt("sim::SliceIter", 0, [store, 0, "by-value"])])
@@ -109,6 +115,11 @@ class MacroParser:
             pvv = S._deref(pvv.fields[0], path)
             if not isinstance(pvv, Adt):
                 return None
+        if self.shape == "rest":
+            rest = S._deref(pvv.fields[0], path)
+            if isinstance(rest, sim.Tup):
+                return self._total - len(rest.fields)
+            return None
         if self.shape == "indexed":
             at = pvv.fields[self.idx_field[0]]
             return at if isinstance(at, int) else None
